@@ -271,6 +271,9 @@ func mcCatalog() *Catalog {
 	return cat
 }
 
+// ill-formed repository names (used only against the in-memory registry directly)
+var badRepos = []string{"Bad", "a//b", "-x", "a/", "x..y"}
+
 var repoPool = []string{"a", "a/blobs/uploads", "blobs", "manifests/tags", "x/referrers", "tags/list", "b-1.x_y", "foo/bar",
 	"foo", "fooey", "foo/bar/baz", "v2", "catalog/x", "r0", "uploads/blobs/manifests", "z9"}
 var tagPool = []string{"t1", "latest", "blobs", "v1.0", "aWQ", "tags", "list", "T_2", "uploads", "referrers", "a.b-c", "_x"}
@@ -373,7 +376,7 @@ func (cat *Catalog) header() map[string]any {
 	}
 	sort.Slice(cids, func(i, j int) bool { return cat.byID[cids[i]].Digest < cat.byID[cids[j]].Digest })
 	return map[string]any{"op": "catalog", "repos": cat.Repos, "tags": cat.Tags, "cids": cids, "cat": cm,
-		"uploads": cat.Uploads, "blockSize": blockSize}
+		"uploads": cat.Uploads, "blockSize": blockSize, "badrepos": badRepos}
 }
 
 // listPos gives the position of a listing start point relative to a sorted universe:
